@@ -424,6 +424,7 @@ func c08History(r *Rec, hI int, steps int) {
 			for _, p := range props {
 				deadlines = append(deadlines, p.votingEnd, p.enactEnd)
 			}
+			sort.Slice(deadlines, func(i, j int) bool { return deadlines[i] < deadlines[j] })
 			dt := int64(1 + r.Rng.Intn(40))
 			if len(deadlines) > 0 && r.Rng.Intn(3) == 0 {
 				d := deadlines[r.Rng.Intn(len(deadlines))] + int64(r.Rng.Intn(3)-1)
